@@ -25,7 +25,8 @@ RULE = ("Hypothesis: noise strings over an alphabet of double/single quotes, tri
         "Non-trivial: the noise or preamble contains a quote, triple quote, backslash or newline. distinct = canonical JSON.")
 ASSUMPTIONS = ["\\r and NUL are not generated in argv", "sqlmodel output is exec'd against the stub"]
 
-NOISE_ALPHABET = ['"', "'", '"""', "'''", "\\", "\n", "\t", "#", "%", "{", "}", " ", "a", "Z", "é", "Ж", "😀", "𝔘", "=", "$", "`", "\\n", "\\x", "\\u12", "\\N{", '\\"']
+NOISE_ALPHABET = ['"', "'", '"""', "'''", "\\", "\n", "\t", "#", "%", "{", "}", " ", "a", "Z", "é", "Ж", "😀", "𝔘", "=", "$", "`", "\\n", "\\x", "\\u12", "\\N{", '\\"',
+                  "\u2028", "\u2029", "\x85", "\x0c", "\x1c", "\x1e", "\\\\", "\\\\\"\"\""]
 
 
 def noise():
@@ -51,7 +52,7 @@ def preambles(draw):
         elif form == "import":
             lines.append("import os as _%s_os%d" % (marker, i))
         else:
-            t = draw(st.lists(st.sampled_from(["a", "\n", "'", "#", " ", "é", "b", "%", "{"]), max_size=8).map("".join))
+            t = draw(st.lists(st.sampled_from(["a", "\n", "'", "#", " ", "é", "b", "%", "{", "\u2028", "\x85", "\x0c", "\x1d"]), max_size=8).map("".join))
             lines.append('"""%s %s"""' % (marker, t))
     if not any(marker in ln for ln in lines):
         lines.insert(0, "# " + marker)
